@@ -50,4 +50,6 @@ def queries(tier, prop='C07'):
     if not quick:
         add('conv_src', 3)
     add('conv_cstr', 5, kf_only='C07_variant_converting_ctor_narrowing')
+    if ub and quick:   # C02 quick: the non-trivial three-alternative instantiation only; C02 thorough runs the whole grid with the UB build
+        out = [q for q in out if q['cfg']['VSET'] == 2 and not q['entry'].startswith('q_hist3')]
     return out
